@@ -33,6 +33,15 @@ func c13Gen(r *driver.Rand, thorough bool) *driver.Plan {
 		p.SetX("interval_us", driver.Pick(r, 1, 250, 500, 999))
 		iv = p.IntervalMs + 1
 	}
+	if r.Chance(1, 25) {
+		// degenerate intervals: zero, one nanosecond
+		p.IntervalMs = 0
+		p.Extra = nil
+		if r.Chance(1, 2) {
+			p.SetX("interval_ns", 1)
+		}
+		iv = 1
+	}
 	if r.Chance(1, 4) {
 		p.Inputs[0] = genValues(r, n)
 	}
@@ -58,6 +67,9 @@ func c13Gen(r *driver.Rand, thorough bool) *driver.Plan {
 		p.CancelStep = r.Intn(40 + 12*n)
 	case 1:
 		p.CancelMs = iv*r.Intn(n/ops+2) + 1 + r.Intn(iv)
+		if r.Chance(1, 4) {
+			p.CancelMs = iv * (1 + r.Intn(n/ops+2)) // exactly on an interval boundary: two events in one instant
+		}
 	case 2:
 		p.CancelAtEnd = true
 	}
